@@ -61,7 +61,7 @@ def pred_skeleton(ctx, f, conj_callees, subject, rule="R-PRED"):
     ctx.ob(rule, f, key, ok, f"verdict == {' and '.join(conj_callees)} on `{subject}`" if ok else "; ".join(msg), rn)
 
 
-def list_dispatch(ctx, f, pname="phi", rule="R-SIB"):
+def list_dispatch(ctx, f, pname="phi", rule="R-SIB", via=None):
     """A predicate accepting Kraus lists must hand the list to a canonical dispatcher (which implements the
     shared three-way classifier) before any element-wise interpretation."""
     m = ctx.model
@@ -73,6 +73,12 @@ def list_dispatch(ctx, f, pname="phi", rule="R-SIB"):
         if cal.kind == "repo" and cal.func.name in DISPATCHERS:
             if any(og.derives_from(a, pname) for a in list(c.args) + [k.value for k in c.keywords]):
                 disp.append(cal.func.name)
+    delegates = set()
+    if via:
+        for c in calls_in(f.node):
+            cal = m.resolve_call(f, c)
+            if cal.kind == "repo" and cal.func.name in via and any(isinstance(a, ast.Name) and a.id == pname for a in list(c.args) + [k.value for k in c.keywords]):
+                delegates.add(cal.func.name)
     # element-wise interpretation of the list by the predicate itself: iteration / tuple-unpacking of pname
     own = []
     for n in walk_no_nested(f.node):
@@ -105,6 +111,18 @@ def list_dispatch(ctx, f, pname="phi", rule="R-SIB"):
             ctx.ob(rule, f, key, None, "own element-wise handling of the list next to a dispatcher call", own[0].iter, required=False)
     elif disp:
         ctx.ob(rule, f, key, True, f"list inputs are handed to {sorted(set(disp))}")
+    elif delegates and via is not None:
+        # the list is handed on, untouched, to sibling predicates that carry this obligation themselves; every use of the
+        # parameter must be such a hand-over (or a type test), and the parameter is never re-bound
+        uses = [n for n in ast.walk(f.node) if isinstance(n, ast.Name) and n.id == pname and isinstance(n.ctx, ast.Load)]
+        handed = {id(a) for c in calls_in(f.node) for a in list(c.args) + [k.value for k in c.keywords]
+                  if isinstance(a, ast.Name) and a.id == pname and m.resolve_call(f, c).kind == "repo" and m.resolve_call(f, c).func.name in via}
+        tests = {id(c.args[0]) for c in calls_in(f.node) if isinstance(c.func, ast.Name) and c.func.id == "isinstance" and c.args}
+        rebound = any(isinstance(n, ast.Name) and n.id == pname and isinstance(n.ctx, ast.Store) for n in ast.walk(f.node))
+        other = [u for u in uses if id(u) not in handed and id(u) not in tests]
+        ok = not other and not rebound and bool(handed)
+        ctx.ob(rule, f, key, ok, f"`{pname}` is handed unchanged to {sorted(delegates)}, which classify the list themselves" if ok else
+               f"`{pname}` is also used outside the hand-over to {sorted(delegates)} (line {other[0].lineno if other else '?'})", None)
     else:
         ctx.ob(rule, f, key, None, "no list handling found", required=False)
 
@@ -183,8 +201,35 @@ def run(ctx):
 
     for f in (iqc, icp, ihp, ipo, itp, iun):
         r_tol_forward(ctx, f)
-    for f in (iqc, icp, ihp, ipo, itp, cr):
-        list_dispatch(ctx, f)
+    # a Choi matrix computed from Kraus operators has lost d_in / d_out; is_trace_preserving (partial_trace with dim=None) then
+    # assumes d_in == d_out == sqrt(size) -- wrong or an InvalidDim error for isometric / rectangular channels (F52)
+    for f in (iqc, icp, ihp, ipo, iun, cr, iex):
+        ogf = origins(f)
+        k2c = set()
+        for n in walk_no_nested(f.node):
+            if isinstance(n, ast.Assign) and isinstance(n.value, ast.Call) and (m.resolve_call(f, n.value).key or "").endswith("kraus_to_choi.kraus_to_choi"):
+                k2c |= {x.id for t in n.targets for x in ast.walk(t) if isinstance(x, ast.Name)}
+        bad = None
+        sites = 0
+        for c in calls_in(f.node):
+            cal = m.resolve_call(f, c)
+            if cal.kind == "repo" and cal.func.name == "is_trace_preserving":
+                sites += 1
+                b = m.bind(c, cal.func)
+                a = b.get("phi")
+                dimb = b.get("dim")
+                from_k2c = isinstance(a, ast.AST) and (({x.id for x in ast.walk(a) if isinstance(x, ast.Name)} & k2c) or
+                                                       any(isinstance(x, ast.Call) and (m.resolve_call(f, x).key or "").endswith("kraus_to_choi.kraus_to_choi") for x in ast.walk(a)))
+                if from_k2c and not isinstance(dimb, ast.AST):
+                    bad = c
+        if sites:
+            ctx.ob("R-KIND", f, "no Choi matrix built from Kraus operators reaches is_trace_preserving without its dimensions", bad is None,
+                   f"{sites} call(s), the Kraus list (or a caller's Choi matrix) is passed as given" if bad is None else
+                   f"`{unparse(bad)[:70]}`: the operand may be kraus_to_choi(list) and `dim` is left to its default (equal input and output dimension): "
+                   "a channel with d_in != d_out (4 x 2 isometric Kraus operators) raises InvalidDim or is judged with the wrong partial trace", bad)
+    checked = (iqc, icp, ihp, ipo, itp, cr)
+    for f in checked:
+        list_dispatch(ctx, f, via={g.name for g in checked if g is not f})
     for f in (iqc, icp, ihp, ipo, itp, iun, cr):
         r_effect_free(ctx, f, ["phi"])
 
